@@ -325,7 +325,7 @@ def decode_arg(ex, a, ret):
     if k == 'd': return ex.dom.from_bits(int(v, 16), 64)
     raise ValueError(a)
 
-def validate(res, mod, snap, prefix, ext=None, only=None, approx=None):
+def validate(res, mod, snap, prefix, ext=None, only=None, approx=None, skip=()):
     """translator validation: execute the harness' validation script with the IR interpreter in the concrete IEEE domain on the
     snapshot and compare every expected blob bit for bit with what the native run produced."""
     steps, blob = parse_script(prefix)
@@ -345,6 +345,7 @@ def validate(res, mod, snap, prefix, ext=None, only=None, approx=None):
             a = addr if how == 'abs' else ret + addr
             if how == 'ret' and name.endswith('_force'): pass
             got = ex.read_bytes(st, a, n)
+            if name in skip: continue
             if got == blob[off:off + n]: ok += 1
             elif approx and name in approx:
                 # results that pass through a library the interpreter cannot reproduce bit for bit (FFTW): compare as floats with a stated tolerance
